@@ -318,7 +318,54 @@ def rule_r8(ctx):
     c12.rule_r1(ctx, rid="C09.R8")
 
 
-RULES = [rule_r1, rule_r2, rule_r3, rule_r4, rule_r5, rule_r6, rule_r7, rule_r8]
+def rule_r9(ctx, rid="C09.R9"):
+    ctx.r.rule(rid, "a failure swallowed inside Task.service ends the connection: every path from one of its handlers to the normal exit stores close_on_finish = True (the response in progress can no longer be delimited)")
+    p = ctx.p
+    f = p.func("task.Task.service")
+    g = cfg_of(f)
+    hs = [n for n in g.nodes if n.kind == "handler"]
+    stores = [n for n in g.nodes if n.kind == "stmt" and isinstance(n.ast, ast.Assign) and any(dotted(t) == "self.close_on_finish" for t in n.ast.targets)
+              and isinstance(n.ast.value, ast.Constant) and n.ast.value.value is True]
+    calls = [n for n, c in find_calls(g, lambda c: dotted(c.func) == "self.set_close_on_finish")]
+    n = 0
+    for h in hs:
+        n += 1
+        pth = g.path(h, g.exit, avoid=stores + calls, follow_exc=False)
+        if pth is None:
+            ctx.r.ok(rid, "handler `except %s`: every swallowing path closes the connection" % (norm(h.ast.type) if h.ast.type is not None else ""), f.loc(h.ast))
+        else:
+            ctx.r.violation(rid, key_of(f, None, "swallow-without-close::" + (norm(h.ast.type) if h.ast.type is not None else "bare")),
+                            "Task.service can swallow %s and return without close_on_finish = True (%s): the connection stays open after a response that was cut short, and the next response is written into it"
+                            % (norm(h.ast.type) if h.ast.type is not None else "an exception", g.describe_path(pth)), f.loc(h.ast))
+    ctx.r.floor(rid, n, 1, "handlers in Task.service")
+
+
+def rule_r10(ctx, rid="C09.R10"):
+    ctx.r.rule(rid, "teardown closes every queued buffer: in handle_close the close() of one buffer is inside a try of its own within the loop (a close() that raises does not skip the remaining buffers / handed-over files)")
+    p = ctx.p
+    f = p.func("channel.HTTPChannel.handle_close")
+    loops = [x for x in ast.walk(f.node) if isinstance(x, ast.For) and "outbufs" in norm(x.iter)]
+    if not loops:
+        ctx.r.violation(rid, key_of(f, None, "no-close-loop"), "handle_close does not loop over the output buffers", f.loc())
+        return
+    n = 0
+    for lp in loops:
+        tv = lp.target.id if isinstance(lp.target, ast.Name) else None
+        for c in ast.walk(lp):
+            if isinstance(c, ast.Call) and isinstance(c.func, ast.Attribute) and c.func.attr == "close" and dotted(c.func.value) == tv:
+                n += 1
+                # a Try that contains the call and is itself contained in the loop body, with a handler that does not leave the loop
+                tries = [t for t in ast.walk(lp) if isinstance(t, ast.Try) and any(y is c for b in t.body for y in ast.walk(b))]
+                good = [t for t in tries if t.handlers and any(h.type is None or norm(h.type) in ("Exception", "BaseException") for h in t.handlers)
+                        and not any(isinstance(y, (ast.Break, ast.Return, ast.Raise)) for h in t.handlers for y in ast.walk(h))]
+                if good:
+                    ctx.r.ok(rid, "%s.close() is contained per buffer" % tv, f.loc(c))
+                else:
+                    ctx.r.violation(rid, key_of(f, None, "close-aborts-loop"), "a close() that raises leaves the loop over the output buffers: the remaining buffers (and files handed over through wsgi.file_wrapper) are never closed", f.loc(c))
+    ctx.r.floor(rid, n, 1, "buffer close calls in handle_close")
+
+
+RULES = [rule_r1, rule_r2, rule_r3, rule_r4, rule_r5, rule_r6, rule_r7, rule_r8, rule_r9, rule_r10]
 
 from ..selftest import M, T, V  # noqa: E402
 
